@@ -51,7 +51,7 @@ static void gen_interval(lp_interval_t* I, int want_alg) {
     if (i > j) { int t = i; i = j; j = t; }
     int alg = EP[i].v.type == LP_VALUE_ALGEBRAIC || EP[j].v.type == LP_VALUE_ALGEBRAIC;
     if (want_alg && !alg) continue;
-    if (i == j) { if (EP[i].v.type == LP_VALUE_ALGEBRAIC) continue; lp_interval_construct_point(I, &EP[i].v); return; }
+    if (i == j) { lp_interval_construct_point(I, &EP[i].v); return; }     /* point intervals, irrational ones included */
     lp_interval_construct(I, &EP[i].v, (int)rnd(2), &EP[j].v, (int)rnd(2));
     return;
   }
